@@ -115,9 +115,35 @@ static std::vector<Op> gen_ops() {
   return ops;
 }
 
-static PassResult run_pass(const std::vector<Op>& ops) {
+// Every pass must start from an empty refill buffer, whatever the library's buffering strategy (the
+// repository keeps one buffer per thread, so a fresh thread starts empty; a build with one shared buffer does
+// not). Draw single bytes until the device is read, then take the rest of what that read fetched.
+static void drain_refill_buffer() {
+  uint64_t before = vfs::urandom_consumed();
+  char tmp[1];
+  unsigned calls = 0;
+  while (vfs::urandom_consumed() == before) {
+    if (++calls > 70000) harness_bug("random_data(1) never reads the entropy device");
+    phosg::random_data(tmp, 1);
+  }
+  uint64_t fetched = vfs::urandom_consumed() - before;
+  if (fetched > 1) {
+    string rest(fetched - 1, '\0');
+    uint64_t mid = vfs::urandom_consumed();
+    phosg::random_data(rest.data(), rest.size());
+    if (vfs::urandom_consumed() != mid) harness_bug("random_data does not serve buffered bytes first: the harness cannot isolate runs");
+  }
+  if (calls > 1) VS_PROBE("pass_started_with_leftover_buffer");
+}
+
+static PassResult run_pass(const std::vector<Op>& ops, const std::vector<int>& script) {
   PassResult pr;
+  uint64_t dev_start = 0;
   std::thread t([&]() {
+    vfs::set_urandom_script({}); // a healthy device while draining
+    drain_refill_buffer();
+    vfs::set_urandom_script(script);
+    dev_start = vfs::urandom_consumed();
     for (size_t i = 0; i < ops.size(); i++) {
       const Op& op = ops[i];
       OpResult r;
@@ -183,7 +209,7 @@ static PassResult run_pass(const std::vector<Op>& ops) {
     }
   });
   t.join();
-  pr.dev_bytes = vfs::urandom_consumed();
+  pr.dev_bytes = vfs::urandom_consumed() - dev_start;
   return pr;
 }
 
@@ -230,12 +256,10 @@ static void run() {
 
   // pass A
   vfs::set_urandom(mode, dseed);
-  vfs::set_urandom_script(script);
-  PassResult A = run_pass(ops);
+  PassResult A = run_pass(ops, script);
   // pass B: complement stream (mode + 100 => complement of mode)
   vfs::set_urandom(mode + 100, dseed);
-  vfs::set_urandom_script(script);
-  PassResult B = run_pass(ops);
+  PassResult B = run_pass(ops, script);
   set_context("");
 
   uint64_t returned_bytes = 0;
@@ -295,9 +319,6 @@ static void run() {
   // implicitly: they only add to the left side)
   if (A.dev_bytes < returned_bytes) {
     fail("random_data/more_output_than_entropy", "accounting", "calls returned " + std::to_string(returned_bytes) + " bytes but the device only delivered " + std::to_string(A.dev_bytes));
-  }
-  if (!A.first_call_read_device && !ops.empty() && !(ops[0].kind <= 1 && ops[0].n == 0)) {
-    harness_bug("random_data did not read the device on the first call of a fresh thread: its buffer is not per-thread, runs are not isolated");
   }
 }
 
